@@ -92,6 +92,7 @@ def judge(ctx, cs, what, codes=CODES, confirm=True, group=None):
                       dict(kind='money', case=c, codes=codes))
     if divcases and confirm:
         ctx.notes.append('%s: decimalfp division guard stepped in for %d case(s)' % (what, len(divcases)))
+        divcases.sort(key=lambda cd: 0 if any(x[2] == 'corrupt' for x in cd[1]) else 1)
         confirm_plain(ctx, [c for c, d in divcases[:4]], codes,
                       '%s / %s' % (divcases[0][1][0][0], divcases[0][1][0][1]), wd_iso)
     return v
@@ -297,7 +298,8 @@ def apply_cases(ctx, rnd):
     rates = [dict(uc='EUR', tc='USD', k=0, t6=_limbs(1250000)), dict(uc='EUR', tc='USD', k=0, t6=_limbs(1098270)),
              dict(uc='USD', tc='JPY', k=0, t6=_limbs(150375000)), dict(uc='JPY', tc='EUR', k=2, t6=_limbs(612345)),
              dict(uc='KWD', tc='EUR', k=0, t6=_limbs(2990000)), dict(uc='HKD', tc='EUR', k=2, t6=_limbs(699000)),
-             dict(uc='EUR', tc='KWD', k=0, t6=_limbs(333333)), dict(uc='USD', tc='EUR', k=1, t6=_limbs(9123457))]
+             dict(uc='EUR', tc='KWD', k=0, t6=_limbs(333333)), dict(uc='USD', tc='EUR', k=1, t6=_limbs(9123457)),
+             dict(uc='KWD', tc='JPY', k=0, t6=_limbs(480123456))]
     if not quick:
         rates += stored_rates(rnd, 30, ('EUR', 'USD', 'JPY', 'KWD', 'HKD'))
     for r in rates:
